@@ -80,7 +80,7 @@ def nl_floordiv(ex, st, a, b, node):
     used('m // k (k > 0) -> q with k*q <= m < k*q + k')
     ex.oblige(st, 'safety', 'floor-division-by-positive', b > 0, node)
     q = ex.fresh_int('quot')
-    st.assume(b * q <= a, a < b * q + b)
+    st.assume(b * q <= a, a < b * q + b, z3.Implies(a >= 0, q >= 0))
     st.ghost.setdefault('floordiv', []).append((a, b, q))
     return q
 
